@@ -49,8 +49,11 @@ def make_interp(model: PyModel, notes_in_file=None) -> Interp:
     if notes_in_file is not None:
         probes[f"{QC}._get_notes_in_file"] = notes_in_file
     I = Interp(model, probes=probes, max_states=5000)
-    helpers = model.table_members().get(f"{QC}._TO_SQL_WHERE_HELPERS", [])
-    I._const_cache[f"{QC}._TO_SQL_WHERE_HELPERS"] = tuple(FuncV(q) for q in helpers)
+    # a registry filled by decorators (metaman.register_function_factory) is a library effect: seed every such list with its decorated functions;
+    # a registry written out as a literal (tuple / list of methods) is evaluated like any other constant
+    for key, helpers in model.table_members().items():
+        if key.startswith(QC + ".") and helpers:
+            I._const_cache[key] = tuple(FuncV(q) for q in helpers)
     return I
 
 
